@@ -19,34 +19,7 @@ S_OPEN, S_CLOSE = '\ue000', '\ue001'
 OPTS = [dict(html_escape_double_quotes=a, html_escape_single_quotes=b, process_html_tokens=c)
         for c in (False, True) for a in (False, True) for b in (False, True)]
 
-PAYLOAD_ATOMS = ['"', "'", '<', '>', '&', '\\', '`', ' ', '(', ')', '[', ']', '{', '}', '=', '/', ';', '#', '%', '\t',
-                 'onerror=', 'javascript:', '<script>', '</a>', '-->', '&quot;', '&#34;', '&lt;', 'x', 'é', '"><b>', "' x='", '\\"', '%22', '{inner}', '{0}']
-CLASSIC = ['x"onerror="alert(1)', '"><script>alert(1)</script>', "' onmouseover='x", 'javascript:alert("1")', 'a&b<c>d"e\'f',
-           '</code></pre><b>', 'http://a@b/"x', 'x" y="z', '{inner}', '&#34;&#60;', '\\"\\<', 'a"b', 'a<b', 'a>b', '<', '>', '"']
-TEMPLATES = [
-    '[t]({p})', '[t](<{p}>)', '[t](u "{p}")', "[t](u '{p}')", '[t](u ({p}))', '[{p}](u)', '![{p}](u)', '![a]({p})', '![a](<{p}>)',
-    '![a](u "{p}")', '![*{p}*](u)', '![`{p}`](u)', '![a [{p}](v) b](u)', '[ref]: {p}\n\n[ref]', '[ref]: u "{p}"\n\n![a][ref]',
-    '[ref]: <{p}> \'{q}\'\n\n[x][ref] ![{p}][ref]', '<http:{p}>', '<x+y:{p}>', '<{p}@example.com>', '<a{p}@b.c>', '<mailto:{p}>',
-    '```{p}\ncode {q}\n```', '~~~ {p}\ncode\n~~~', '~~~{p} {q}\n{p}\n~~~', '    {p}', '`{p}`', '``{p}``', '*{p}*', '**{p}**', '~~{p}~~',
-    '# {p}', '{p}\n===', '> {p}', '- {p}', '1. {p}', '| {p} | b |\n|---|:-:|\n| c | {q} |', '|{p}|\n|-|\n|`{q}`|', '{p}  \n{q}', '{p}\\\n{q}',
-    '<div>{p}</div>', '<!-- {p} -->', 'a <b {p}> c', 'a <b x="{p}"> c', '&{p};', '&#{p};', '\\{p}', '{p}',
-]
-
-
-def payload(rng):
-    r = rng.random()
-    if r < 0.35:
-        return rng.choice(CLASSIC)
-    return ''.join(rng.choice(PAYLOAD_ATOMS) for _ in range(rng.randint(1, 6)))
-
-
-def payload_doc(rng):
-    parts = []
-    for _ in range(rng.choice((1, 1, 2, 3))):
-        t = rng.choice(TEMPLATES)
-        parts.append(t.replace('{p}', payload(rng)).replace('{q}', payload(rng)))
-    sep = rng.choice(('\n\n', '\n', ' '))
-    return sep.join(parts) + '\n'
+from ..workloads import PAYLOAD_ATOMS, CLASSIC, TEMPLATES, payload, payload_doc  # noqa: E402
 
 
 def bracket_raw(doc):
